@@ -128,3 +128,22 @@ Theorem C03_source_wt_new_correct : forall w seq,
        g_wt_select_unchecked fuel w n nl sg data nbits meta samples nzeros c k = Val p).
 Proof. exact g_wt_new_correct_closed. Qed.
 Print Assumptions C03_source_wt_new_correct.
+
+(* every public construction path of the plain binary tree (new / From<Vec<T>> / FromIterator, regenerated), followed by the
+   regenerated queries *)
+From QwtModel Require Import FnsWrapWtOk.
+Theorem C03_source_wt_constructors : forall k w seq,
+  (w = 8 \/ w = 16 \/ w = 32 \/ w = 64 \/ w = 128) -> Forall (fun x => x < 2 ^ w) seq ->
+  len seq < RSQBuild.RSQ_MAXN ->
+  exists n nl sg data nbits nones meta samples nzeros lens,
+    wt_ctor k w seq = Val (n, nl, sg, None, None, None, data, nbits, nones, meta, samples, nzeros, lens) /\
+    g_wt_len n = Val (len seq) /\ g_wt_is_empty n = Val (len seq =? 0) /\
+    (forall i, g_wt_get w n nl data meta nzeros i = Val (nthN seq i)) /\
+    (forall c i, c < 2 ^ w ->
+       g_wt_rank w n nl sg data meta nzeros c i
+       = Val (if negb (len seq =? 0) && (i <=? len seq) && (c <=? maxN seq) then Some (rank_spec seq c i) else None)) /\
+    (forall c k fuel, c < 2 ^ w -> k < 2 ^ 64 -> (N.to_nat (len seq / 4096) + 3 <= fuel)%nat ->
+       g_wt_select fuel w n nl sg data nbits meta samples nzeros c k
+       = Val (if negb (len seq =? 0) && (c <=? maxN seq) then select_spec seq c k else None)).
+Proof. exact g_wt_ctors_correct. Qed.
+Print Assumptions C03_source_wt_constructors.
